@@ -123,7 +123,7 @@ package gnmi
 //@   ensures {C19} poll-before-subscribe-refused: !isSubscribeMsg(req) && isPollMsg(req) && old(sctx.req) == nil ==> err != nil && targetLookupCount == old(targetLookupCount) && pollCalls == old(pollCalls)
 //@   ensures {C19} unknown-message-refused: !isSubscribeMsg(req) && !isPollMsg(req) ==> err != nil && targetLookupCount == old(targetLookupCount) && sbSubscribeCalls == old(sbSubscribeCalls) && pollCalls == old(pollCalls)
 //@   ensures {C19} subscription-remembered: isSubscribeMsg(req) && old(sctx.req) == nil ==> sctx.req == req
-//@   ensures {C19} poll-reaches-every-subscribed-target: err == nil && !isSubscribeMsg(req) && isPollMsg(req) ==> (forall t string :: (t in sctx.treqs) ==> targetLookups[t]) && sbSubscribeCalls == old(sbSubscribeCalls) && sctx.treqs == old(sctx.treqs) && sctx.req == old(sctx.req)
+//@   ensures {C19} poll-reaches-every-subscribed-target: old(sctx.req) != nil && !isSubscribeMsg(req) && isPollMsg(req) ==> (forall t string :: (t in sctx.treqs) ==> targetLookups[t]) && sbSubscribeCalls == old(sbSubscribeCalls) && sctx.treqs == old(sctx.treqs) && sctx.req == old(sctx.req)
 //@   ensures {C19} nothing-reaches-unnamed-targets: forall t string :: targetLookups[t] ==> (t in sctx.treqs)
 //@   ensures {C19} subscribe-reaches-every-named-target: err == nil && isSubscribeMsg(req) ==> (forall t string :: (t in sctx.treqs) ==> targetLookups[t]) && pollCalls == old(pollCalls)
 //@   loop 1 invariant sctx.treqs != nil && pollCalls == old(pollCalls) && (forall t string :: visited(1)[t] ==> targetLookups[t]) && (forall t string :: targetLookups[t] ==> (t in sctx.treqs))
